@@ -25,8 +25,10 @@ func kdfBy8(baseMD *digest, keyLen int, limit int) []byte {
 		t = 56 - remainlen
 	} else {
 		t = 64 + 56 - remainlen
-		blocks = 2
 	}
+	// buffered bytes + counter + padding + length: one or two blocks
+	// (two also when the counter itself crosses the block boundary, nx >= 60)
+	blocks = (baseMD.nx + 4 + int(t) + 8) / BlockSize
 	len <<= 3
 
 	var ct uint32 = 1
